@@ -207,3 +207,14 @@ m("c19-thread-local-memo-coarse-key", "C19", 1, [("src/gm2_mf.cpp",
   ("src/gm2_mf.cpp", "   return lambda_qcd;\n}\n\n/**\n * Calculates \\f$F_b",
    "   last_alpha = static_cast<float>(alpha); last_scale = static_cast<float>(scale); last_result = lambda_qcd;\n   return lambda_qcd;\n}\n\n/**\n * Calculates \\f$F_b")],
   "thread_local memo (no race) whose key is truncated to float: a point whose alpha_s differs by less than 1e-7 from the previous one in the thread gets the neighbour's Lambda_QCD")
+
+# ----------------------------------------------------------------------------- C19 through the C interface
+m("c19-one-slot-recycling-in-c-new-free", "C19", 1, [("src/MSSMNoFV/MSSMNoFV_onshell_c.cpp",
+   "MSSMNoFV_onshell* gm2calc_mssmnofv_new()\n{\n   return reinterpret_cast<MSSMNoFV_onshell*>(new gm2calc::MSSMNoFV_onshell());\n}",
+   "static gm2calc::MSSMNoFV_onshell* recycled = nullptr; // last freed model, reused by the next new()\n\n"
+   "MSSMNoFV_onshell* gm2calc_mssmnofv_new()\n{\n   if (recycled != nullptr) {\n      gm2calc::MSSMNoFV_onshell* m = recycled;\n      recycled = nullptr;\n      *m = gm2calc::MSSMNoFV_onshell();\n      return reinterpret_cast<MSSMNoFV_onshell*>(m);\n   }\n"
+   "   return reinterpret_cast<MSSMNoFV_onshell*>(new gm2calc::MSSMNoFV_onshell());\n}"),
+  ("src/MSSMNoFV/MSSMNoFV_onshell_c.cpp",
+   "void gm2calc_mssmnofv_free(MSSMNoFV_onshell* model)\n{\n   delete reinterpret_cast<gm2calc::MSSMNoFV_onshell*>(model);\n}",
+   "void gm2calc_mssmnofv_free(MSSMNoFV_onshell* model)\n{\n   if (model == nullptr) { return; }\n   delete recycled;\n   recycled = reinterpret_cast<gm2calc::MSSMNoFV_onshell*>(model);\n}")],
+  "process-wide one-slot recycling of model objects behind the C new/free without synchronisation: parallel construction through the C interface races (two threads can get the same object)")
